@@ -15,6 +15,7 @@ BUDGET = {
     "C07": B(1500, 15000),
     "C08": B(1500, 15000),
     "C20": B(1500, 15000),
+    "C19": B(2500, 40000),
     "C14": B(800, 10000),
     "C05": B(800, 12000),
     "C10": B(1500, 20000),
@@ -36,6 +37,12 @@ RULE = {
     "C03": SCHED + "Programs as C01 plus an ordering shape (a holder, then requests issued one by one, each only after the previous requester is parked). "
            "Oracle over the event log: for requests X, Y with PARK(X) < CALL(Y), not both reads: RET(X) < RET(Y). Non-trivial = at least one such ordered pair "
            "and two threads parked at once.",
+    "C19": "rapidcheck builds locale strings from pieces: (language by code | by name) _ (country by code | by name) [. charset] over the public tables; near misses (case changes, "
+           "truncated/extended names, unknown codes, empty parts); structure breakers (no '_', '.' before '_', several of each, only delimiters); fillers of 1..300 bytes incl. "
+           "63/64/65; arbitrary byte strings. Oracle: independent split and linear table lookup -> exact expected Info (by code: all table names of the code; by name: the name and only "
+           "names of its code; otherwise exactly en/{English}/GB/United Kingdom with error set), pointers compared by content; result built in 0xA5-poisoned storage after poisoning the "
+           "stack (an unwritten field is the poison value); exact-size heap copy of the input under ASan. Non-trivial = the input has both delimiters and at least one part that is a "
+           "table entry, or a part of >= 64 bytes. Distinct = distinct case text.",
     "C14": "rapidcheck generates histories (<=60 ops quick, <=200 thorough) over a pool of 4 tulz::Array<int> / Array<lifetime-tracked class>: construction from pointer+length "
            "(copy, and adopting a malloc'ed block), initializer list (0-8), size, size+value, default; copy/move construct and assign, self-assignment, swap, resize(n), "
            "resize(n, v), element writes through operator[]/iterator/front/back, destroy; lengths 0-40 (thorough 0-2000). Oracle: std::vector<std::optional<int>> model "
@@ -90,6 +97,8 @@ VS = ["controlled scheduler: pre-emption only at synchronisation operations, thr
       "glibc pthread primitives are modelled by the scheduler (mutex owner table, condvar waiter lists), not executed"]
 
 ASSUMPTIONS = {
+    "C19": ["inputs whose country NAME contains '.' (Virgin Islands, U.S.) are ambiguous in the documented format and accepted either way (counted)",
+            "by-name lookups: the table has duplicate names (Norwegian, Ndebele); any entry with that name is accepted"],
     "C14": ["element types are bitwise relocatable", "resize(n, v): v never aliases the array", "int slots that tulz leaves uninitialised are never compared"],
     "C05": ["handles are used only after isValid(), as every real caller does", "handle validity between an invalidation and the lazy removal at the next notify is left open"],
     "C10": ["callbacks never touch their captures after an action that may destroy their observer", "every observer index is subscribed at most once per case"],
